@@ -167,9 +167,13 @@ class PresenceResourceService(BaseResourceServiceImpl):
         @utils.exit_on_unhandled
         def _retry_request(data, _stat, event):
             """Force exit if server node is deleted."""
+            session_id, _pwd = self.zkclient.client_id
             if (data is None or
-                    (event is not None and event.type == 'DELETED')):
-                # The node is deleted, safe to retry request.
+                    (event is not None and event.type == 'DELETED') or
+                    _stat.owner_session_id == session_id):
+                # The node is deleted (or it was deleted and created again by
+                # this service while the watch was not set), safe to retry
+                # request.
                 self.retry_request(rsrc_id)
                 return False
             else:
